@@ -7,7 +7,7 @@ from ..gen import J
 
 PROP = "C01"
 HOSTILE = ('scale', 'special')
-MONITORS = ("WF", "SPEC")
+MONITORS = ("WF", "SPEC", "FORM")
 REQUIRED_MONITORS = ("WF",)
 ANCHORS = [("factor.py", "ConjugateFactor._multiply_with_measure"),
            ("factor.py", "ConjugateFactor._hadamard_with_measure"),
